@@ -154,15 +154,19 @@ def Sound {N : Type} (sys : Sys N) (I : Interp N) (V : List N) (e : Expr N) : Ou
   | .err _ => True
   | .ok a c t =>
     if t = true then True
-    else if a = true then HoldsD sys I V e
+    else if a = true then HoldsD sys I [] e
     else if c = true then ¬ HoldsP sys I V e
     else ¬ HoldsP sys I [] e
 
+/-- a cache fact is sound when it states the global semantics of its node -/
+def SoundFact {N : Type} (sys : Sys N) (I : Interp N) (n : N) (b : Bool) : Prop :=
+  (b = true → D sys I [] n) ∧ (b = false → ¬ P sys I [] n)
+
 section
-variable {N : Type} (sys : Sys N) (I : Interp N)
+variable {N : Type} (sys : Sys N) (I : Interp N) {facts : Facts N}
 
 theorem sound_true {V : List N} {e : Expr N} {c : Bool} :
-    Sound sys I V e (.ok true c false) ↔ HoldsD sys I V e := by simp [Sound]
+    Sound sys I V e (.ok true c false) ↔ HoldsD sys I [] e := by simp [Sound]
 theorem sound_false_noflag {V : List N} {e : Expr N} :
     Sound sys I V e (.ok false false false) ↔ ¬ HoldsP sys I [] e := by simp [Sound]
 theorem sound_false_flag {V : List N} {e : Expr N} :
@@ -193,10 +197,11 @@ theorem getElem_mem_arr {outs arr : List Out} (hp : arr.Perm outs) (i : Nat) (h 
 
 /-- `allowed = true` never carries the cycle flag, for any schedule. -/
 theorem eval_true_noflag {maxDepth d : Nat} {V : List N} {e : Expr N} {o : Out}
-    (h : Eval sys maxDepth d V e o) : ∀ c t, o = .ok true c t → c = false := by
+    (h : Eval sys facts maxDepth d V e o) : ∀ c t, o = .ok true c t → c = false := by
   induction h with
   | abort => intro c t ho; cases ho
   | lit v => intro c t ho; cases v <;> simp [leafOut] at ho; exact ho.1.symm ▸ rfl
+  | node_hit _ _ _ _ => intro c t ho; cases ho; rfl
   | node_depth => intro c t ho; cases ho
   | node_cycle => intro c t ho; cases ho
   | node_eval _ _ _ _ _ _ ih => exact ih
@@ -285,8 +290,9 @@ theorem diff_sound (hc : Coherent sys I) {V : List N} {b s : Expr N} {ob os : Ou
 
 /-- **Main theorem.** Every outcome of every evaluation — any schedule, any depth limit, any path —
 is sound for a coherent (stratified) interpretation. -/
-theorem eval_sound (hc : Coherent sys I) {maxDepth d : Nat} {V : List N} {e : Expr N} {o : Out}
-    (h : Eval sys maxDepth d V e o) : Sound sys I V e o := by
+theorem eval_sound (hc : Coherent sys I) (hf : ∀ n b, facts n b → SoundFact sys I n b)
+    {maxDepth d : Nat} {V : List N} {e : Expr N} {o : Out}
+    (h : Eval sys facts maxDepth d V e o) : Sound sys I V e o := by
   induction h with
   | abort => trivial
   | lit v =>
@@ -295,6 +301,14 @@ theorem eval_sound (hc : Coherent sys I) {maxDepth d : Nat} {V : List N} {e : Ex
     | ff => exact (sound_false_noflag sys I).mpr (fun hp => by cases hp with | lit hv => exact hv rfl)
     | err => trivial
     | errSw => exact sound_taint sys I
+  | node_hit dispatch n b hfact =>
+    cases b with
+    | true => exact (sound_true sys I).mpr (.node ((hf n true hfact).1 rfl))
+    | false =>
+      refine (sound_false_noflag sys I).mpr ?_
+      intro hp
+      cases hp with
+      | node hn => exact (hf n false hfact).2 rfl hn
   | node_depth => trivial
   | node_cycle dispatch n _ hmem =>
     refine (sound_false_flag sys I).mpr ?_
@@ -311,9 +325,7 @@ theorem eval_sound (hc : Coherent sys I) {maxDepth d : Nat} {V : List N} {e : Ex
         cases a with
         | true =>
           have ih' := (sound_true sys I).mp ih
-          have h1 : Holds leafD I.negD (D sys I V) (sys.rule n) :=
-            Holds.mono leafD I.negD (lfp_antitone sys leafD I.negD (fun _ hm => List.mem_cons_of_mem _ hm)) ih'
-          exact (sound_true sys I).mpr (.node (lfp_closed sys leafD I.negD V n hnm h1))
+          exact (sound_true sys I).mpr (.node (lfp_closed sys leafD I.negD [] n List.not_mem_nil ih'))
         | false =>
           cases c with
           | false =>
@@ -434,7 +446,7 @@ theorem eval_sound (hc : Coherent sys I) {maxDepth d : Nat} {V : List N} {e : Ex
               | and hall => exact hrel (hall _ (List.getElem_mem h1))
   | @diff d V b s ob os bf hevb hevs ihb ihs =>
     refine diff_sound sys I hc bf ihb (eval_true_noflag sys hevb) (eval_true_noflag sys hevs) ?_ ?_
-    · intro c ho; subst ho; exact holdsD_to_global sys I V s ((sound_true sys I).mp ihs)
+    · intro c ho; subst ho; exact (sound_true sys I).mp ihs
     · intro ho; subst ho; exact (sound_false_noflag sys I).mp ihs
   | @diff_ideal d V b s ob os bf hevb hevs ihb ihs =>
     refine diff_sound sys I hc bf ihb (eval_true_noflag sys hevb) ?_ ?_ ?_
@@ -466,10 +478,11 @@ theorem eval_sound (hc : Coherent sys I) {maxDepth d : Nat} {V : List N} {e : Ex
 end
 
 /-- Top level (`V = []`, what `Check` returns): an untainted decision is the semantics. -/
-theorem eval_root_sound {N : Type} (sys : Sys N) (I : Interp N) (hc : Coherent sys I)
-    {maxDepth : Nat} {e : Expr N} {a c : Bool} (h : Eval sys maxDepth 0 [] e (.ok a c false)) :
+theorem eval_root_sound {N : Type} (sys : Sys N) (I : Interp N) {facts : Facts N} (hc : Coherent sys I)
+    (hf : ∀ n b, facts n b → SoundFact sys I n b)
+    {maxDepth : Nat} {e : Expr N} {a c : Bool} (h : Eval sys facts maxDepth 0 [] e (.ok a c false)) :
     (a = true → HoldsD sys I [] e) ∧ (a = false → ¬ HoldsP sys I [] e) := by
-  have hs := eval_sound sys I hc h
+  have hs := eval_sound sys I hc hf h
   constructor
   · intro ha; subst ha; exact (sound_true sys I).mp hs
   · intro ha; subst ha; exact sound_false_rel sys I [] e c hs
